@@ -676,10 +676,56 @@ func GenClosedSystemScript(t *rapid.T, thorough bool) *Script {
 	var s *Script
 	if chance(t, "starved", 35) {
 		s = genStarvedQueueWorld(t, o)
+	} else if chance(t, "pooledgangs", 25) {
+		s = genPooledGangWorld(t, o)
 	} else {
 		s = GenScript(t, "C15", "closed-system", o)
 	}
 	s.Config.SaturationMultiplier = pick(t, "saturation", "", "1.5", "3")
+	if len(s.World.Nodes) >= 2 && chance(t, "pools", 30) {
+		// node pools: every workload is tied to one pool by a node selector, so capacity that raises fair shares may be
+		// unusable for the workloads that compete (running pods keep their node: the selector of a workload is that of
+		// the pool its first running pod is in)
+		pool := map[string]string{}
+		for i := range s.World.Nodes {
+			n := &s.World.Nodes[i]
+			if n.Labels == nil {
+				n.Labels = map[string]string{}
+			}
+			n.Labels["pool"] = pick(t, "nodepool", "a", "b")
+			if i < 2 {
+				n.Labels["pool"] = []string{"a", "b"}[i]
+			}
+			pool[n.Name] = n.Labels["pool"]
+		}
+		for i := range s.World.Workloads {
+			w := &s.World.Workloads[i]
+			sel, mixed := "", false
+			for _, p := range w.Pods {
+				if p.Node != "" {
+					if sel != "" && pool[p.Node] != sel {
+						mixed = true
+					}
+					sel = pool[p.Node]
+				}
+			}
+			if mixed {
+				continue
+			}
+			if sel == "" {
+				sel = pick(t, "wlpool", "a", "b", "")
+			}
+			if sel == "" {
+				continue
+			}
+			for j := range w.Pods {
+				if w.Pods[j].NodeSelector == nil {
+					w.Pods[j].NodeSelector = map[string]string{}
+				}
+				w.Pods[j].NodeSelector["pool"] = sel
+			}
+		}
+	}
 	rounds := 14
 	if thorough {
 		rounds = 30
@@ -805,7 +851,7 @@ func GenC17Script(t *rapid.T, thorough bool) *Script {
 	nsteps := rapid.IntRange(2, 8).Draw(t, "nsteps")
 	for i := 0; i < nsteps; i++ {
 		st := C17Step{}
-		switch pick(t, "stepkind", "reconcile", "reconcile", "reconcile", "complete", "delete", "delete_br", "restart", "agent") {
+		switch pick(t, "stepkind", "reconcile", "reconcile", "reconcile", "complete", "delete", "delete_br", "restart", "agent", "terminate") {
 		case "reconcile":
 			st.Kind = "reconcile"
 			k := rapid.IntRange(1, min(3, len(pods))).Draw(t, "nconc")
@@ -826,6 +872,8 @@ func GenC17Script(t *rapid.T, thorough bool) *Script {
 			for j := 0; j < nt; j++ {
 				st.Tape = append(st.Tape, rapid.IntRange(0, 3).Draw(t, "tape"))
 			}
+		case "terminate":
+			st.Kind, st.Arg = "terminate", pick(t, "tpod", all...)
 		case "complete":
 			st.Kind, st.Arg = "complete", pick(t, "cpod", all...)
 		case "delete":
@@ -969,6 +1017,47 @@ func genStarvedQueueWorld(t *rapid.T, o GenOpts) *Script {
 	}
 	if chance(t, "sgpending", 40) {
 		add("gp0", "greedy", rapid.IntRange(1, 2).Draw(t, "gpgpus"), false, 500)
+	}
+	return s
+}
+
+// genPooledGangWorld: closed system of gangs tied to a small node pool by a node selector, next to a second pool whose
+// idle GPUs raise every queue's fair share without being usable: two or three queues of equal age, one gang each
+// (1-GPU pods), some running, the others pending. A reclaim that is justified for one pod of a gang but not for the
+// whole gang must not happen: if it does, the victim can do the same back.
+func genPooledGangWorld(t *rapid.T, o GenOpts) *Script {
+	s := &Script{Prop: "C15", Profile: "closed-pooled-gangs"}
+	s.MapSeed = rapid.Uint64Range(1, 1<<62).Draw(t, "mapseed")
+	s.Config = genConfig(t, o)
+	s.Config.Actions = []string{"allocate", "consolidation", "reclaim", "preempt", "stalegangeviction"}
+	g := pick(t, "pgpus", 2, 3, 4)
+	spare := pick(t, "pspare", 0, 2, 4, 8)
+	s.World.Nodes = []NodeSpec{{Name: "n0", CPUm: 64000, MemMi: 262144, Pods: 110, GPUs: int64(g), Labels: map[string]string{"pool": "a"}}}
+	if spare > 0 {
+		s.World.Nodes = append(s.World.Nodes, NodeSpec{Name: "n1", CPUm: 64000, MemMi: 262144, Pods: 110, GPUs: int64(spare), Labels: map[string]string{"pool": "b"}})
+	}
+	unl := QRes{Quota: -1, Limit: -1, Weight: 1}
+	s.World.PriorityClasses = []PriorityClassSpec{{"train", 50}, {"build", 100}, {"inference", 125}, {"low", 25}}
+	nq := rapid.IntRange(2, 3).Draw(t, "pqueues")
+	free := g
+	for i := 0; i < nq; i++ {
+		s.World.Queues = append(s.World.Queues, QueueSpec{Name: fmt.Sprintf("q%d", i), GPU: QRes{Quota: float64(rapid.IntRange(0, g).Draw(t, "pquota")), Limit: -1, Weight: pick(t, "pw", 1.0, 1.0, 2.0)}, CPU: unl, Mem: unl})
+		k := rapid.IntRange(1, g).Draw(t, "pgang")
+		w := WorkloadSpec{Name: fmt.Sprintf("w%d", i), Queue: fmt.Sprintf("q%d", i), MinMember: int32(k), PriorityClass: "train", AgeSec: int64(pick(t, "page", 1000, 1000, 2000))}
+		running := k <= free && chance(t, "prunning", 60)
+		if running {
+			free -= k
+			ago := int64(rapid.IntRange(100, 10000).Draw(t, "pls"))
+			w.LastStartAgo = &ago
+		}
+		for j := 0; j < k; j++ {
+			p := PodSpec{Name: fmt.Sprintf("w%d-p%d", i, j), CPUm: 100, MemMi: 128, GPUs: 1, State: "pending", NodeSelector: map[string]string{"pool": "a"}}
+			if running {
+				p.State, p.Node = "running", "n0"
+			}
+			w.Pods = append(w.Pods, p)
+		}
+		s.World.Workloads = append(s.World.Workloads, w)
 	}
 	return s
 }
